@@ -10,10 +10,6 @@ CHECKS = {
 }
 
 NOT_APPLICABLE = {
-    'C16': 'Translation correctness relates a run-time database, its Metamath verification and the emitted bytes; every clause '
-           'quantifies over run-time databases and proof shapes and the converter is built from closures whose behaviour is not '
-           'visible in the shape of the code. No sound static argument in reach; the structural ingredients are decided under '
-           'C02/C04/C15/C18 and are not relabelled as C16 (DESIGN.md section 3, C16).',
 }
 
 
